@@ -42,7 +42,7 @@ word_t* @{word_if_known}(sv_t w)
    string literals, so the scan below runs on constants */
 word_t* @{known_word}(unsigned char* p)
 { unsigned long n = 0; while (n < 24 && p[n] != 0) n++;
-  for (int k = 0; k < 56; k++) if (spelled(&WORDS[k], p, n)) return &WORDS[k];
+  for (int k = 0; k < (int)(sizeof(WORDS) / sizeof(WORDS[0])); k++) if (spelled(&WORDS[k], p, n)) return &WORDS[k];
   __CPROVER_assert(0, "known_word of a spelling that is not reserved"); return 0; }
 /* identifiers: foreign Identifier nodes spelled by foreign strings; ID_DEFAULT is the REAL reserved identifier `default` */
 string_t* @{virt:unary_string_operand}(struct S_ZTSN3ipr11Basic_unaryIRKNS_6StringEEE* self)
@@ -53,7 +53,7 @@ static void pools(void)
   NFAC = &FAC->__b0;                                                        /* expr_factory : name_factory */
   R0 = &WORDS[RW_INDEX];
   __CPROVER_assert(spelled(R0, sp_rw, sizeof sp_rw), "the reserved word of this run is at the index read from the table");
-  for (int k = 0; k < 56; k++) { sv_t t = WORDS[k].f_str.f_txt; __CPROVER_assert(t.f__M_len >= 1 && (t.f__M_len > 1 || (t.f__M_str[0] != 'a' && t.f__M_str[0] != 'b')), "neither the empty word nor a / b is reserved"); }
+  for (int k = 0; k < (int)(sizeof(WORDS) / sizeof(WORDS[0])); k++) { sv_t t = WORDS[k].f_str.f_txt; __CPROVER_assert(t.f__M_len >= 1 && (t.f__M_len > 1 || (t.f__M_str[0] != 'a' && t.f__M_str[0] != 'b')), "neither the empty word nor a / b is reserved"); }
   S0 = STRING_OF_WORD(R0); S1 = @{empty_string}(); S4 = NEWZ(string_t); S5 = NEWZ(string_t);
   WV[0] = (sv_t){sizeof sp_rw, sp_rw}; WV[1] = (sv_t){0, sp_a}; WV[2] = (sv_t){1, sp_a}; WV[3] = (sv_t){1, sp_b};
   for (int i = 0; i < NPOOL; i++) { TY[i] = NEWZ(type_t); EX[i] = NEWZ(expr_t); NM[i] = NEWZ(name_t); ID[i] = NEWZ(ident_t); TP[i] = NEWZ(template_t); EL[i] = NEWZ(elist_t); }
